@@ -57,6 +57,8 @@ def gen_config(rng, hostpool):
         rng.shuffle(order)
         depth = {k: rng.choice([0, 0, 1, 1, 2, 3]) for k in order if rng.random() < 0.5}
         cfg['program'] = {'order': order, 'depth': depth}
+        if cfg['storage'] == 'legacy' and rng.random() < 0.5:
+            cfg['program']['default_policy'] = True
     return cfg
 
 
